@@ -18,7 +18,8 @@ RULE = (
     "py_version in {None, (3,8)..(3,13)} x mode in {exec, eval} (full grid for pool/corpus/gated inputs; for the E-TOK "
     "trees verbose x mode at the default version and three lowered versions). Oracle: the outcome (tree dump with "
     "positions, or exception class + message + location) is identical with verbose on and off; for each version it "
-    "equals the default outcome or is a SyntaxError naming a required version above it, and from the first version "
+    "equals the default outcome or is a SyntaxError naming a required version above it; below the version that CPython's "
+    "own tree says the program needs (except*: 3.11; type statements and type-parameter lists: 3.12) it must be that error; and from the first version "
     "that gives the default outcome on, all higher ones do. Non-trivial = inputs x configurations evaluated (distinct)."
 )
 BOUND = {"quick": "pool + 150 corpus statements + gated list: full 28-point grid; E-TOK n<=3 (expr, stmt, xsh, match) and the wrapped family: 7 points",
@@ -118,6 +119,26 @@ def run_unit(unit: tuple, acc: Any) -> None:
         check_case(case, acc)
 
 
+def _needed_version(src: str, mode: str) -> tuple[int, int] | None:
+    """The version the gated syntax of a (plain Python) program needs, read off CPython's own tree: except* -> 3.11,
+    type statements and type-parameter lists -> 3.12.  None for programs CPython does not parse (xonsh constructs)."""
+    import warnings
+
+    try:
+        with warnings.catch_warnings():
+            warnings.simplefilter("ignore")
+            tree = ast.parse(src, mode=mode)
+    except (SyntaxError, ValueError):
+        return None
+    need = None
+    for n in ast.walk(tree):
+        if isinstance(n, ast.TypeAlias) or getattr(n, "type_params", None):
+            need = max(need or (0, 0), (3, 12))
+        elif isinstance(n, ast.TryStar):
+            need = max(need or (0, 0), (3, 11))
+    return need
+
+
 _NEEDS = re.compile(r"only supported in Python \((\d+), (\d+)\) and above")
 
 
@@ -144,11 +165,16 @@ def check_case(case: dict, acc: Any) -> None:
         if mode == "eval" and case["grid"] == "light":
             continue
         reached = False
+        needs = _needed_version(src, mode) if base[0] == "tree" else None
         for v in versions[1:]:
             o = outcome(src, mode, v, False)
             acc.ran()
             acc.nontrivial((src, mode, v))
             if o == base:
+                if needs and v < needs:
+                    acc.violation(f"VERSION accepted below the version its syntax needs mode={mode}",
+                                  {"src": src, "mode": mode, "py_version": v, "grid": case["grid"]}, {"needs": needs})
+                    return
                 reached = True
                 continue
             m = _NEEDS.search(o[2]) if o[0] == "SyntaxError" and isinstance(o[2], str) else None
